@@ -50,7 +50,8 @@ def case(draw):
         elif k == 8:
             steps.append(["r", "redo"])
         elif k <= 10:
-            steps.append(["w", "w"])
+            # a write followed by a change on the same command line: the saved point and the change must not share an undo sequence
+            steps.append(draw(st.sampled_from([["w", "w"], ["w", "w"], ["wmod", "w|1s/^/m%d/" % i], ["wmod", "w|$d"], ["modwmod", "1s/^/a%d/|w|1s/^/b%d/" % (i, i)]])))
         elif k == 11:
             steps.append(["wpart", draw(st.sampled_from(["1w", "1,1w", "2,$w", "$w"]))])
         elif k == 12:
@@ -58,7 +59,7 @@ def case(draw):
         elif k == 13:
             steps.append(["wother", "1w! " + draw(st.sampled_from(FILES[:nf] + ["scratch"]))])
         elif k == 14:
-            steps.append(["reload", "e!"])
+            steps.append(draw(st.sampled_from([["reload", "e!"], ["reload", "e!"], ["reloadmod", "e! +1d"], ["reloadmod", "e! +1s/^/r%d/" % i]])))
         elif k <= 17:
             steps.append(["sw", "e " + f])
         elif k == 18:
@@ -191,10 +192,39 @@ def run_case(env, c):
                     b.hist_known = False
                     b.saved = snap           # CAL: :e! on a file that does not exist keeps the text and marks it clean
                     b.saved_id = b.ids[b.cur]
+            elif k in ("wmod", "modwmod", "reloadmod"):
+                pass        # handled below (the written / reloaded text is known, the final text is observed)
             elif k in ("nop", "w", "wpart", "wother", "sw", "swf") and changed:
                 return fail("command %r changed the text" % cmd, i)
-            b.text = snap
+            if k not in ("wmod", "modwmod", "reloadmod"):
+                b.text = snap
         ok_write = "[w]" in msg
+        if k in ("wmod", "modwmod", "reloadmod") and newcur == cur:
+            if k == "reloadmod":
+                if cur in disk:
+                    written = disk[cur]
+                else:
+                    written = b.text        # CAL: :e! on a file that does not exist keeps the text and marks it clean
+            elif ok_write:
+                if k == "wmod":
+                    written = b.text
+                else:       # a<i>|w|b<i>: the text written is the final text without the second prefix
+                    tag = cmd.split("|")[2][5:-1]
+                    # (when the second substitution did not apply - empty buffer - the text written is the final text)
+                    written = snap[len(tag):] if snap.startswith(tag.encode()) else snap
+                if written is not None:
+                    disk[cur] = written
+            else:
+                written = None
+            if written is not None:
+                b.saved = written
+                b.forced_dirty = False
+                b.hist_known = False         # several history steps inside one command line: only the text relation is asserted
+                b.saved_id = -1 if snap != written else b.ids[b.cur]
+                info["clean_point"] = True
+            else:
+                b.hist_known = False
+            b.text = snap
         if k == "w" and ok_write:
             disk[cur] = b.text
             b.saved = b.text
